@@ -224,7 +224,7 @@ func c14run(env *core.Env, idx int) core.CaseResult {
 		res.Inconclusive = "fault-free run hung"
 		return res
 	}
-	cleanView := c14view(clean.fs)
+	_ = c14view(clean.fs) // (walks the fault-free tree once: a walk problem would show up in every fault run)
 	n := clean.hook.n
 	res.Evals = n + 1
 	res.Count("histories", 1)
@@ -281,14 +281,32 @@ func c14run(env *core.Env, idx int) core.CaseResult {
 			if at >= len(cleanResults) || results[at].Data != cleanResults[at].Data || results[at].N != cleanResults[at].N || !cleanResults[at].OK() {
 				return false
 			}
-			w.hook.mu.Lock()
-			w.hook.failAt = -1
-			w.hook.mu.Unlock()
-			v := ""
-			if p := core.Recover(func() { v = c14view(w.fs) }); p != "" {
+			// the state is compared right after the faulted operation (both runs cut there): later operations of the
+			// history may legitimately fail in the faulted run (a failed lazy load is remembered by the handle and
+			// reported by the next call that needs the contents), which says nothing about THIS operation's work
+			prefix := steps
+			if at+1 < len(steps) {
+				prefix = steps[:at+1]
+			}
+			cw, err1 := newC14World(cs.Shape, -1)
+			fw, err2 := newC14World(cs.Shape, k)
+			if err1 != nil || err2 != nil {
 				return false
 			}
-			return v == cleanView
+			if _, hung, _ := c14exec(cw, prefix); hung {
+				return false
+			}
+			if _, hung, _ := c14exec(fw, prefix); hung {
+				return false
+			}
+			fw.hook.mu.Lock()
+			fw.hook.failAt = -1
+			fw.hook.mu.Unlock()
+			cv, fv := "", ""
+			if p := core.Recover(func() { cv, fv = c14view(cw.fs), c14view(fw.fs) }); p != "" {
+				return false
+			}
+			return cv == fv
 		}
 		surfaced := at < len(results) && strings.HasSuffix(results[at].Data, ":fail") // OpenClose: the handle I/O inside the step reported the error
 		if at < len(results) && results[at].Panic == "" && results[at].OK() && !results[at].Skip && !surfaced {
